@@ -200,6 +200,39 @@ func (e *Exec) intrinsicMisc(name string, fn *ssa.Function, args []Value) (Value
 
 func (e *Exec) harnessAPI2(fn *ssa.Function, args []Value) (Value, bool) {
 	switch fn.Name() {
+	case "vWatch":
+		// vWatch(mu *sync.Mutex, p interface{}): every later access to memory reachable from p
+		// must happen while mu is held
+		mu := args[0].(*Pointer)
+		if e.watch == nil {
+			e.watch = map[*Cell]*Cell{}
+			e.watchBuf = map[*SymBuf]*Cell{}
+		}
+		if e.lockHeld == nil {
+			e.lockHeld = map[*Cell]bool{}
+		}
+		e.watchOff = true
+		e.watchValue(args[1], mu.C, 0)
+		e.watchOff = false
+		return nil, true
+	case "vWatchOff":
+		e.watchOff = true
+		return nil, true
+	case "vWatchOn":
+		e.watchOff = false
+		return nil, true
+	case "vHeld":
+		mu := args[0].(*Pointer)
+		return smt.BoolC(e.lockHeld[mu.C]), true
+	case "vWatchHits":
+		return smt.BVC(64, uint64(e.watchHits)), true
+	case "vBufClone":
+		s := args[0].(*Slice)
+		if s.Buf == nil {
+			ts := e.sliceTerms(s)
+			return e.newByteSlice(append([]*smt.Term(nil), ts...)), true
+		}
+		return &Slice{Buf: &SymBuf{Arr: s.Buf.Arr, Len: s.Buf.Len}}, true
 	case "vSupportSweep":
 		label := e.constStr(args[0])
 		ev := e.sliceTerms(args[1])
@@ -208,4 +241,40 @@ func (e *Exec) harnessAPI2(fn *ssa.Function, args []Value) (Value, bool) {
 		return nil, true
 	}
 	return nil, false
+}
+
+func (e *Exec) watchCell(c *Cell, mu *Cell, depth int) {
+	if c == nil || depth > 6 {
+		return
+	}
+	if c.Sub != nil {
+		for _, s := range c.Sub {
+			e.watchCell(s, mu, depth)
+		}
+		return
+	}
+	if _, done := e.watch[c]; done {
+		return
+	}
+	e.watch[c] = mu
+	e.watchValue(e.load(c), mu, depth+1)
+}
+
+func (e *Exec) watchValue(v Value, mu *Cell, depth int) {
+	switch x := v.(type) {
+	case *Iface:
+		e.watchValue(x.V, mu, depth)
+	case *Pointer:
+		if x.C != nil && x.C != mu {
+			e.watchCell(x.C, mu, depth)
+		}
+	case *Slice:
+		if x.Buf != nil {
+			e.watchBuf[x.Buf] = mu
+			return
+		}
+		for i := 0; i < x.Cap && x.Off+i < len(x.Back); i++ {
+			e.watchCell(x.Back[x.Off+i], mu, depth)
+		}
+	}
 }
